@@ -10,7 +10,11 @@ C08 — executable models of the three handle mechanisms.
 * `Pool`  — `tbox::ObjectPool<T>` (modules/base/object_pool.hpp): the parked-block chain is a list of
             block identities (head = `free_header_`); `malloc` is a source of fresh identities.
 * `FdSys` — `tbox::util::Fd` (modules/util/fd.{h,cpp}): a heap of `Detail` records and handle slots
-            holding an optional detail pointer; every member function is transcribed.
+            holding an optional detail pointer; every member function is transcribed (construction from
+            an invalid descriptor number included; an empty close function is "no function").
+* Fast.lean — the class `cabinet::Token` itself (constructors, accessors, order, hash), runs of many calls
+            (`allocN`/`freeN`/`atN`, pool `allocMany`/`freeMany`) and `CabA`, the cabinet over an `Array`
+            that the driver executes (proved equal to `Cab`).
 -/
 namespace Tbox.C08
 
@@ -395,6 +399,12 @@ def ctorFd (s : FdSys) (h : Nat) (withFn : Bool) : FdSys :=
            handles := s.handles.set h (some s.details.length),
            nextRes := s.nextRes + 1 }
 
+/-- `Fd(fd)` / `Fd(fd, close_func)` with a NEGATIVE number `-(k+1)` (what a failed `open`/`socket`
+returned): a record is created all the same; it never closes anything -/
+def ctorNeg (s : FdSys) (h : Nat) (k : Nat) (withFn : Bool) : FdSys :=
+  { s with details := s.details ++ [{ fd := Int.negSucc k, ref := 1, hasFn := withFn }],
+           handles := s.handles.set h (some s.details.length) }
+
 /-- `swap(other)` -/
 def swap (s : FdSys) (a b : Nat) : FdSys :=
   let da := s.detailOf a
@@ -449,6 +459,7 @@ end FdSys
 inductive FdOp where
   | fresh (h : Nat)                      -- destroy, default-construct
   | opn (h : Nat) (withFn : Bool)        -- destroy, construct from a newly opened descriptor
+  | opnNeg (h k : Nat) (withFn : Bool)   -- destroy, construct from the invalid descriptor number -(k+1)
   | copyCtor (d s : Nat)                 -- destroy d, copy-construct it from s   (d ≠ s)
   | moveCtor (d s : Nat)                 -- destroy d, move-construct it from s   (d ≠ s)
   | copyAssign (d s : Nat)
@@ -459,13 +470,14 @@ inductive FdOp where
 deriving Repr, DecidableEq
 
 def FdOp.ok : FdOp → Bool
-  | .fresh h | .reset h | .close h | .opn h _ => h < nFdSlots
+  | .fresh h | .reset h | .close h | .opn h _ | .opnNeg h _ _ => h < nFdSlots
   | .copyCtor d s | .moveCtor d s => d < nFdSlots ∧ s < nFdSlots ∧ d ≠ s
   | .copyAssign d s | .moveAssign d s | .swap d s => d < nFdSlots ∧ s < nFdSlots
 
 def FdSys.step (s : FdSys) : FdOp → FdSys
   | .fresh h => s.del h
   | .opn h fn => (s.del h).ctorFd h fn
+  | .opnNeg h k fn => (s.del h).ctorNeg h k fn
   | .copyCtor d src => (s.del d).copyInto d src
   | .moveCtor d src => (s.del d).swap d src
   | .copyAssign d src => s.copyAssign d src
